@@ -501,7 +501,7 @@ fn tree_cases(t: &mut Trace, rng: &mut Rng, thorough: bool) {
                 // shapes 0, 1, 4 have short proofs (about log n); the combs 2, 3 have proofs of up to
                 // n - 1 elements: all honest proofs, corruptions of a few leaves only
                 let shapes: Vec<u8> = if thorough {
-                    vec![0, 1, 4, 2, 3]
+                    vec![(n % 2) as u8, 4, 2, 3]
                 } else {
                     let mut v = vec![[0u8, 1, 4][n % 3], [0u8, 1, 4][(n + 1) % 3]];
                     if n <= 20 {
